@@ -6,6 +6,7 @@ package vnet
 
 import (
 	"context"
+	"errors"
 	"sync"
 	"time"
 
@@ -48,6 +49,7 @@ type Net struct {
 	mu       sync.Mutex
 	silenced map[string]bool // packets sent *by* this endpoint vanish silently
 	blocked  map[string]bool // sends by this endpoint block until ctx is done
+	failing  map[string]bool // sends by this endpoint fail at once
 	// Describe turns a serialized packet into trace fields.
 	Describe func(b []byte) []any
 }
@@ -67,6 +69,7 @@ func New(rec *trace.Recorder, latency time.Duration, d Decider,
 		},
 		silenced: map[string]bool{},
 		blocked:  map[string]bool{},
+		failing:  map[string]bool{},
 		Describe: describe,
 	}
 }
@@ -96,6 +99,13 @@ func (n *Net) Silence(e string, on bool) {
 func (n *Net) Block(e string, on bool) {
 	n.mu.Lock()
 	n.blocked[e] = on
+	n.mu.Unlock()
+}
+
+// Fail makes every later send by endpoint e return an error at once.
+func (n *Net) Fail(e string, on bool) {
+	n.mu.Lock()
+	n.failing[e] = on
 	n.mu.Unlock()
 }
 
@@ -197,8 +207,12 @@ func (n *Net) SendFunc(e string) func(ctx context.Context, b []byte) error {
 		}
 		n.mu.Lock()
 		blocked, silenced := n.blocked[e], n.silenced[e]
+		failing := n.failing[e]
 		decide := n.Decide
 		n.mu.Unlock()
+		if failing {
+			return errors.New("vnet: transport failed")
+		}
 		if blocked {
 			<-ctx.Done()
 			return ctx.Err()
